@@ -112,3 +112,63 @@ func factKeys(fs FactSet) string {
 	sort.Strings(ks)
 	return strings.Join(ks, "; ")
 }
+
+// runC01NewGroup (O13): a NEW gpu group opened for a fractional pod sits on a whole gpu of the node. It may be
+// reported "not releasing" (which turns into a bind) only if the node has an idle whole gpu for it:
+// IsTaskAllocatable alone also counts the shared gpus the task fits on, and with an order that prefers whole gpus
+// (gpuspread) the pod is otherwise bound onto a gpu that a terminating pod still holds (finding F22).
+func runC01NewGroup(c *Ctx) {
+	fx := c.Fx
+	n := 0
+	for _, fn := range c.P.FuncsIn(pkgGpuShare) {
+		if isTestdataOrMock(fn) {
+			continue
+		}
+		mints := instrsIn(fn, func(in ssa.Instruction) bool {
+			cc, ok := in.(ssa.CallInstruction)
+			return ok && calleeOf(cc) != nil && calleeOf(cc).Name() == "NewUUID"
+		})
+		if len(mints) == 0 {
+			continue
+		}
+		for _, in := range instrsIn(fn, func(in ssa.Instruction) bool {
+			st, ok := in.(*ssa.Store)
+			if !ok {
+				return false
+			}
+			fa, ok := st.Addr.(*ssa.FieldAddr)
+			return ok && fieldOfAddr(fa) != nil && fieldOfAddr(fa).Name() == "IsReleasing"
+		}) {
+			n++
+			st := in.(*ssa.Store)
+			fs := fx.valueFacts(st.Val, WantFalse, 0, map[ssa.Value]bool{})
+			why, ok := hasFact(fs, func(f Fact) bool {
+				if f.T.Op != "bin" || len(f.T.Args) != 2 {
+					return false
+				}
+				isIdle := func(t *Term) bool {
+					s := t.String()
+					return strings.Contains(s, ".Idle") && strings.Contains(s, "GPUs")
+				}
+				l, r := isIdle(f.T.Args[0]), isIdle(f.T.Args[1])
+				if l == r {
+					return false
+				}
+				other := f.T.Args[1]
+				op := f.T.Name
+				if r { // mirror so that Idle is on the left
+					other = f.T.Args[0]
+					op = map[string]string{"<": ">", ">": "<", "<=": ">=", ">=": "<=", "==": "==", "!=": "!="}[op]
+				}
+				if !f.Pol {
+					op = map[string]string{"<": ">=", ">": "<=", "<=": ">", ">=": "<", "==": "!=", "!=": "=="}[op]
+				}
+				zero := other.String() == "const:0"
+				return (op == ">=" && !zero) || op == ">"
+			})
+			c.Check(fs.Bottom || ok, "O13", "DOM", funcKey(fn)+": a new gpu group counts as idle only if the node has an idle whole gpu for it", instrPos(in), why,
+				"a freshly opened gpu group can be reported not-releasing without a lower bound on the node's idle whole gpus (facts implied by IsReleasing == false: "+factKeys(fs)+"): a fractional pod is bound onto a gpu that a terminating pod still holds")
+		}
+	}
+	c.Floor("O13", "DOM new-group verdicts", n, 1)
+}
